@@ -189,6 +189,16 @@ func flagData(f []bool) map[string]interface{} {
 		addPool("P_SelStopTagAsGiven", "pool:ExecuteSelectedRulesWithControlAndStopTagAsGivenSortedName", "pool.ExecuteSelectedRulesWithControlAndStopTagAsGivenSortedName [r2 zz r1]", "gp.ExecuteSelectedRulesWithControlAndStopTagAsGivenSortedName(data, b, &engine.Stag{}, "+namesU+")", "\tcheckAsGiven(tr, n, []int{2, 1}, nil, f, b, err)\n")
 		addPool("P_SelConc", "pool:ExecuteSelectedRulesConcurrent", "pool.ExecuteSelectedRulesConcurrent [r1 r2 r0]", "gp.ExecuteSelectedRulesConcurrent(data, "+names3+")", "\tcheckTwoStageCand(tr, n, "+cand3+", 3, 0, false, false, s, f, true, err)\n")
 		addPool("P_SelMix", "pool:ExecuteSelectedRulesMixModel", "pool.ExecuteSelectedRulesMixModel [r1 r2 r0]", "gp.ExecuteSelectedRulesMixModel(data, "+names3+")", "\tcheckTwoStageCand(tr, n, "+cand3+", 1, 2, true, false, s, f, false, err)\n")
+		// the pool's dispatcher on its execution model, the model set at run time
+		for _, d := range []struct{ id, model, oracle string }{
+			{"Sort", "SortModel", "\tcheckSorted(tr, n, " + cand3 + ", s, f, true, err)\n"},
+			{"Concurrent", "ConcurrentModel", "\tcheckTwoStageCand(tr, n, " + cand3 + ", 3, 0, false, false, s, f, true, err)\n"},
+			{"Mix", "MixModel", "\tcheckTwoStageCand(tr, n, " + cand3 + ", 1, 2, true, false, s, f, false, err)\n"},
+			{"Inverse", "InverseMixModel", "\tcheckTwoStageCand(tr, n, " + cand3 + ", 2, 1, false, true, s, f, false, err)\n"},
+		} {
+			addPool("P_SelSpecifiedEM_"+d.id, "pool:ExecuteSelectedWithSpecifiedEM", "pool.ExecuteSelectedWithSpecifiedEM under "+d.model+" [r1 r2 r0]",
+				"func() (error, map[string]interface{}) {\n\t\tmust(gp.SetExecModel(engine."+d.model+"), \"model change\")\n\t\treturn gp.ExecuteSelectedWithSpecifiedEM(data, "+names3+")\n\t}()", d.oracle)
+		}
 		addPool("P_SelInverse", "pool:ExecuteSelectedRulesInverseMixModel", "pool.ExecuteSelectedRulesInverseMixModel [r1 r2 r0]", "gp.ExecuteSelectedRulesInverseMixModel(data, "+names3+")", "\tcheckTwoStageCand(tr, n, "+cand3+", 2, 1, false, true, s, f, false, err)\n")
 		for _, nmv := range []struct {
 			fn     string
